@@ -66,7 +66,7 @@ package graphql
 //@   props C18
 //@   assigns nothing
 //@   nopanic
-//@   ensures result != nil
+//@   ensures typeis(err, "*gqlerrors.Error") || result != nil
 //@   ensures !typeis(err, "*gqlerrors.Error") ==> result.Path == path
 
 //@ func handleFieldError
